@@ -17,6 +17,7 @@ From Coq Require Import String.
 From Coq Require Import List Arith NArith ZArith Bool.
 Import ListNotations.
 From SV Require Import C11.AliasIR C11.Values C11.Lemmas C11.LemmasV.
+From SV Require Import C11.History C11.LemmasH C11.Dataset C11.LemmasD.
 
 (* --- the checker is sound ------------------------------------------------- *)
 
@@ -208,3 +209,229 @@ Example ex_selector_hit : selector_F5 (Some 0) [None; Some (QArith_base.Qmake 4%
 Proof. reflexivity. Qed.
 Example ex_selector_miss : selector_F5 (Some 1) [None; Some (QArith_base.Qmake 4%Z 1%positive, QArith_base.Qmake 6%Z 1%positive)] = false.
 Proof. reflexivity. Qed.
+
+(* ======================================================================== *)
+(* --- histories over the heap: the cache is part of the heap ---------------- *)
+
+(* `calls fs h h'`: any sequence of executions of bodies of fs (any dataset's
+   __getitem__, any helper), each from the heap the previous one left, with
+   any arguments existing at that point.  If every function of fs is accepted
+   (per run: `all_accepted` in Gen/C11_Oblig.v for the regenerated programs),
+   the heap only grows: every object that existed at the start — the labels,
+   the dataset, its cache dict, every cached sample dict and tensor — is
+   bit-for-bit what it was, after ANY history. *)
+Theorem history_frame : forall fs, Forall (fun f => fn_accepted f = true) fs ->
+  forall h h', wf_heap h -> calls fs h h' ->
+  forall o, o < length h -> nth_error h' o = nth_error h o.
+Proof. exact history_frame_l. Qed.
+Print Assumptions history_frame.
+
+Theorem history_extends : forall fs, Forall (fun f => fn_accepted f = true) fs ->
+  forall h h', calls fs h h' -> wf_heap h -> wf_heap h' /\ exists extra, h' = h ++ extra.
+Proof. exact calls_extend_l. Qed.
+Print Assumptions history_extends.
+
+(* ... and so is everything reachable from it, to any depth *)
+Theorem history_value : forall fs, Forall (fun f => fn_accepted f = true) fs ->
+  forall h h', wf_heap h -> calls fs h h' ->
+  forall n o, o < length h -> value n h' o = value n h o.
+Proof. exact history_value_l. Qed.
+Print Assumptions history_value.
+
+(* a sample handed out by an earlier read is not altered by later reads *)
+Theorem earlier_results_stable : forall fs, Forall (fun f => fn_accepted f = true) fs ->
+  forall h0 h1 h2, wf_heap h0 -> calls fs h0 h1 -> calls fs h1 h2 ->
+  forall n o, o < length h1 -> value n h2 o = value n h1 o.
+Proof. exact earlier_results_stable_l. Qed.
+Print Assumptions earlier_results_stable.
+
+(* Same index, same sample, as a statement about the accepted program.  `rd`
+   is the interpreter's deterministic behaviour on the body of f; the two
+   contracts are the trusted base made explicit: (1) what rd does is one of the
+   executions of the translated body, (2) objects that cannot be reached from
+   the arguments do not influence the value of the result.  Then after any
+   history of calls of accepted functions (reads of any index in any order,
+   helper calls), the read returns the value it returns on the initial heap. *)
+Theorem same_sample_after_calls : forall fs, Forall (fun f => fn_accepted f = true) fs ->
+  forall (rd : heap -> list obj -> obj * heap),
+  (forall h extra args n, wf_heap h -> wf_heap (h ++ extra) -> args_ok args h ->
+     value n (snd (rd (h ++ extra) args)) (fst (rd (h ++ extra) args)) =
+     value n (snd (rd h args)) (fst (rd h args))) ->
+  forall h h' args n, wf_heap h -> calls fs h h' -> args_ok args h ->
+  value n (snd (rd h' args)) (fst (rd h' args)) = value n (snd (rd h args)) (fst (rd h args)).
+Proof. exact same_sample_after_calls_l. Qed.
+Print Assumptions same_sample_after_calls.
+
+Theorem same_index_same_sample : forall fs, Forall (fun f => fn_accepted f = true) fs ->
+  forall f, In f fs ->
+  forall (rd : heap -> list obj -> obj * heap),
+  (forall h args, wf_heap h -> args_ok args h ->
+     exists e', exec args (f_body f) ([], h) (e', snd (rd h args))) ->
+  (forall h extra args n, wf_heap h -> wf_heap (h ++ extra) -> args_ok args h ->
+     value n (snd (rd (h ++ extra) args)) (fst (rd (h ++ extra) args)) =
+     value n (snd (rd h args)) (fst (rd h args))) ->
+  forall h pre args n, wf_heap h -> Forall (fun a => args_ok a h) pre -> args_ok args h ->
+  let h' := run_reads rd h pre in
+  value n (snd (rd h' args)) (fst (rd h' args)) = value n (snd (rd h args)) (fst (rd h args)).
+Proof. exact same_index_same_sample_l. Qed.
+Print Assumptions same_index_same_sample.
+
+(* non-vacuity, and the shallow-copy pitfall: with
+     sample = self.cache[index].copy(); sample["instance"] -= point
+   the semantics has an execution after which the value of `self` (dataset ->
+   cache -> cached dict -> tensor) differs, and NO certificate is accepted;
+   with the rebinding the code has (`sample["instance"] = sample["instance"] - point`)
+   a certificate is accepted *)
+Theorem cached_entry_augassign_changes_cache :
+  exists e' h', wf_heap cache_heap /\ args_ok [0] cache_heap /\
+    exec [0] p_cached_entry_augassign ([], cache_heap) (e', h') /\
+    reach cache_heap 0 3 /\ value 4 h' 0 <> value 4 cache_heap 0.
+Proof. exact cached_entry_augassign_changes_cache_l. Qed.
+Print Assumptions cached_entry_augassign_changes_cache.
+
+Theorem cached_entry_augassign_rejected : forall pts hpts,
+  closed pts hpts p_cached_entry_augassign = true ->
+  no_param_write pts p_cached_entry_augassign = false.
+Proof. exact cached_entry_augassign_rejected_l. Qed.
+Print Assumptions cached_entry_augassign_rejected.
+
+Example ex_cached_entry_rebind_accepted : check pts_rebind hpts_rebind p_cached_entry_rebind = true.
+Proof. exact cached_entry_rebind_accepted_l. Qed.
+
+(* ======================================================================== *)
+(* --- which label instances become samples (Dataset.v) ----------------------- *)
+
+(* the user-instance filter is idempotent: _get_lf_idx_list, _get_instance_idx_list
+   and process_lf all apply it to the same frame object, in any order, any number of times *)
+Theorem rebind_idem : forall uo fr, rebind uo (rebind uo fr) = rebind uo fr.
+Proof. exact rebind_idem_l. Qed.
+Print Assumptions rebind_idem.
+
+Theorem rebind_users : forall fr, existsb li_user fr = true -> rebind true fr = filter li_user fr.
+Proof. exact rebind_users_l. Qed.
+Print Assumptions rebind_users.
+
+Theorem rebind_no_users : forall uo fr, existsb li_user fr = false -> rebind uo fr = fr.
+Proof. exact rebind_no_users_l. Qed.
+Print Assumptions rebind_no_users.
+
+(* no instance is invented *)
+Theorem considered_from_labels : forall uo fr inst, In inst (considered uo fr) ->
+  exists li, In li fr /\ li_pts li = inst.
+Proof. exact considered_from_labels_l. Qed.
+Print Assumptions considered_from_labels.
+
+(* process_lf: num_instances counts the non-empty considered instances; the first
+   num_instances rows are those instances in label order (an empty instance in the
+   middle of the frame is skipped, not kept); every further row is NaN padding;
+   `instances` has max_instances rows *)
+Theorem process_lf_num : forall uo maxi fr,
+  snd (process_lf uo maxi fr) = length (filter nonempty (considered uo fr)).
+Proof. exact process_lf_num_l. Qed.
+Print Assumptions process_lf_num.
+
+Theorem process_lf_row : forall uo maxi fr j, (j < snd (process_lf uo maxi fr))%nat ->
+  nth_error (fst (process_lf uo maxi fr)) j = nth_error (filter nonempty (considered uo fr)) j.
+Proof. exact process_lf_row_l. Qed.
+Print Assumptions process_lf_row.
+
+Theorem process_lf_pad : forall uo maxi fr j row, (snd (process_lf uo maxi fr) <= j)%nat ->
+  nth_error (fst (process_lf uo maxi fr)) j = Some row -> all_missing row = true.
+Proof. exact process_lf_pad_l. Qed.
+Print Assumptions process_lf_pad.
+
+Theorem num_le_max_instances : forall uo frames fr, In fr frames ->
+  (snd (process_lf uo (max_instances frames) (rebind uo fr)) <= max_instances frames)%nat.
+Proof. exact num_le_max_instances_l. Qed.
+Print Assumptions num_le_max_instances.
+
+(* sample k of BottomUp / Centroid / SingleInstance datasets, for every label set,
+   user_instances_only, scale and k *)
+Theorem frame_sample_defined : forall uo s frames k,
+  (k < length (lf_idx_list (ds_frames uo frames)))%nat <-> frame_sample uo s frames k <> None.
+Proof. exact frame_sample_defined_l. Qed.
+Print Assumptions frame_sample_defined.
+
+Theorem frame_sample_rows : forall uo s frames k rows n,
+  frame_sample uo s frames k = Some (rows, n) ->
+  exists f, nth_error (lf_idx_list (ds_frames uo frames)) k = Some f /\ (f < length frames)%nat /\
+    let labs := filter nonempty (considered uo (nth f frames [])) in
+    n = length labs /\ (0 < n)%nat /\
+    (forall j lab, nth_error labs j = Some lab -> nth_error rows j = Some (map (scale_kp s) lab)) /\
+    (forall j row, (n <= j)%nat -> nth_error rows j = Some row -> all_missing row = true).
+Proof. exact frame_sample_rows_l. Qed.
+Print Assumptions frame_sample_rows.
+
+(* a keypoint of a sample row is missing exactly when the label keypoint is *)
+Theorem scaled_missing_iff : forall s (inst : instance) k,
+  nth k (map (scale_kp s) inst) None = None <-> nth k inst None = None.
+Proof. exact scaled_missing_iff_l. Qed.
+Print Assumptions scaled_missing_iff.
+
+Theorem frame_sample_width : forall uo s frames k rows n,
+  frame_sample uo s frames k = Some (rows, n) -> Nat.eqb (max_instances frames) 1 = false ->
+  length rows = max_instances frames.
+Proof. exact frame_sample_width_l. Qed.
+Print Assumptions frame_sample_width.
+
+Theorem frame_len : forall uo frames,
+  length (lf_idx_list (ds_frames uo frames)) =
+  length (filter (fun fr => existsb nonempty (considered uo fr)) frames).
+Proof. exact frame_len_l. Qed.
+Print Assumptions frame_len.
+
+(* CenteredInstanceDataset: sample k is cut around the k-th non-empty considered
+   instance — the row `_fill_cache` takes from the stacked (rebound) frame is the
+   instance `_get_instance_idx_list` enumerated (one index space) *)
+Theorem centered_source_is_indexed_instance : forall uo frames k,
+  (k < length (instance_idx_list (ds_frames uo frames)))%nat ->
+  exists f i inst, nth_error (instance_idx_list (ds_frames uo frames)) k = Some (f, i) /\
+    (f < length frames)%nat /\
+    centered_source uo frames k = Some inst /\
+    nth_error (considered uo (nth f frames [])) i = Some inst /\ nonempty inst = true.
+Proof. exact centered_source_l. Qed.
+Print Assumptions centered_source_is_indexed_instance.
+
+Theorem centered_sample_defined : forall fixed anchor uo s frames k,
+  (k < length (instance_idx_list (ds_frames uo frames)))%nat <->
+  centered_sample fixed anchor uo s frames k <> None.
+Proof. exact centered_sample_defined_l. Qed.
+Print Assumptions centered_sample_defined.
+
+Theorem centered_sample_fixed : forall anchor uo s frames k c kept,
+  centered_sample true anchor uo s frames k = Some (c, kept) ->
+  exists f i inst, nth_error (instance_idx_list (ds_frames uo frames)) k = Some (f, i) /\
+    nth_error (considered uo (nth f frames [])) i = Some inst /\ nonempty inst = true /\
+    kept = map (scale_kp s) inst /\ c <> None.
+Proof. exact centered_sample_fixed_l. Qed.
+Print Assumptions centered_sample_fixed.
+
+(* lengths: one sample per non-empty considered instance; with user_instances_only
+   and a user instance in every frame, per non-empty USER instance *)
+Theorem centered_len_considered : forall uo frames,
+  length (instance_idx_list (ds_frames uo frames)) =
+  list_sum (map (fun fr => length (filter nonempty (considered uo fr))) frames).
+Proof. exact centered_len_considered_l. Qed.
+Print Assumptions centered_len_considered.
+
+Theorem centered_len_user : forall frames,
+  (forall fr, In fr frames -> existsb li_user fr = true) ->
+  length (instance_idx_list (ds_frames true frames)) = count_user_nonempty frames.
+Proof. exact centered_len_user_l. Qed.
+Print Assumptions centered_len_user.
+
+(* non-vacuity: a frame [predicted P; empty user; user U1; user U2], user_instances_only *)
+Definition ex_p : instance := [Some (QArith_base.Qmake 9%Z 1%positive, QArith_base.Qmake 9%Z 1%positive)].
+Definition ex_u1 : instance := [Some (QArith_base.Qmake 1%Z 1%positive, QArith_base.Qmake 2%Z 1%positive)].
+Definition ex_u2 : instance := [Some (QArith_base.Qmake 3%Z 1%positive, QArith_base.Qmake 4%Z 1%positive)].
+Definition ex_frames : list lframe :=
+  [[mklinst false ex_p; mklinst true [None]; mklinst true ex_u1; mklinst true ex_u2]].
+Example ex_frame_sample :
+  frame_sample true (QArith_base.Qmake 1%Z 1%positive) ex_frames 0 <> None /\
+  snd (process_lf true (max_instances ex_frames) (nth 0 ex_frames [])) = 2%nat /\
+  length (fst (process_lf true (max_instances ex_frames) (nth 0 ex_frames []))) = 4%nat.
+Proof. split; [vm_compute; discriminate|split; reflexivity]. Qed.
+Example ex_centered_index_space :
+  instance_idx_list (ds_frames true ex_frames) = [(0, 1); (0, 2)]%nat /\
+  centered_source true ex_frames 1 = Some ex_u2 /\ count_user_nonempty ex_frames = 2%nat.
+Proof. repeat split; reflexivity. Qed.
